@@ -217,13 +217,11 @@ PPL::Grid::quick_equivalence_test(const Grid& y) const {
     }
       //  - and if there are no lines, the same generators.
     if (x_num_lines == 0) {
-      // Check for syntactic identity.
+      // Check for syntactic identity (a mismatch proves nothing: the
+      // point and the parameters of a minimized system are not unique).
 
       if (x.gen_sys == y.gen_sys) {
         return Grid::TVB_TRUE;
-      }
-      else {
-        return Grid::TVB_FALSE;
       }
     }
   }
@@ -232,11 +230,11 @@ PPL::Grid::quick_equivalence_test(const Grid& y) const {
   //       checks.
 
   if (css_normalized) {
+    // Syntactically equal systems denote the same grid; different
+    // systems prove nothing, as the strong minimal form is not unique
+    // (e.g., -A + B = 0 (mod 3) and 2A + B = 0 (mod 3) are both accepted).
     if (x.con_sys == y.con_sys) {
       return Grid::TVB_TRUE;
-    }
-    else {
-      return Grid::TVB_FALSE;
     }
   }
 
